@@ -886,7 +886,17 @@ func (p *Parser) inferExprType(mod *sysl.Module,
 }
 
 func (p *Parser) inferTypes(mod *sysl.Module, appName string) {
-	for viewName, view := range mod.Apps[appName].Views {
+	// Views in name order, and one counter for the whole application: the generated
+	// AnonType_n__ names are then unique and the same on every run.
+	views := mod.Apps[appName].Views
+	viewNames := make([]string, 0, len(views))
+	for viewName := range views {
+		viewNames = append(viewNames, viewName)
+	}
+	sort.Strings(viewNames)
+	anonCount := 0
+	for _, viewName := range viewNames {
+		view := views[viewName]
 		if syslutil.HasPattern(view.Attrs, "abstract") {
 			continue
 		}
@@ -894,7 +904,7 @@ func (p *Parser) inferTypes(mod *sysl.Module, appName string) {
 			logrus.Warnf("view %s expression should be of type transform", viewName)
 			continue
 		}
-		p.inferExprType(mod, appName, view.Expr, true, 0, viewName, viewName, view.GetRetType())
+		_, anonCount, _ = p.inferExprType(mod, appName, view.Expr, true, anonCount, viewName, viewName, view.GetRetType())
 	}
 }
 
